@@ -204,6 +204,24 @@ ADDED9 = {   # round 9
  "C19": "; fixed-offset and POSIX-style zone names",
  "C20": "; a failing script as a computed xpath and then as a value",
 }
+ADDED10 = {   # round 10
+ "C01": "; long runs of filtered-out records",
+ "C02": "; script kind 'probe' next to a throwing script that was given the probed name",
+ "C03": "; xpaths that leave the record in every declaration position",
+ "C04": "; family 'mixed' (string value spread over several text nodes)",
+ "C06": "; U+FFFD in fixed-width cells",
+ "C07": "; CR LF as segment delimiter, also through NewSchema",
+ "C08": "; every XMLTree case also streamed record by record",
+ "C11": "; the prefix of a URI changing from document to document",
+ "C12": "; directed release / acquire-and-attach / read interleaving",
+ "C13": "; scripts with odd endings",
+ "C15": "; xpaths differing only in white space inside a literal",
+ "C17": "; property names that differ from record to record",
+ "C19": "; one text under several parsing regimes",
+ "C20": "; calls that differ only in ignore_error",
+}
+for _p, _t in ADDED10.items():
+    CHECKS[_p]["technique"] += _t
 for _p, _t in ADDED9.items():
     CHECKS[_p]["technique"] += _t
 for _p, _t in ADDED8.items():
